@@ -9,6 +9,7 @@ package main
 // kind 2 (observed trace): Z = the canonical coarse trace of a scenario (see c01_trace.go), emitted by the generator
 //   after each scenario; Run recomputes the summary "accept:acked=..,disk=..,..." from the trace alone (and re-checks
 //   at-least-once on it); the Coq acceptor replays the trace through Model/System.v and must print the same.
+// kind 3 (stop with open connections): see c01_stop.go; the Coq model executes the scenario (Model/SystemConnEnd.v).
 
 import (
 	"fmt"
@@ -36,11 +37,14 @@ func c01RunCase(c *Case) (string, []Fail) {
 		return out, fails
 	case 2:
 		return c01TraceCase(c.Z)
+	case 3:
+		return c01StopCaseRun(c.Z)
 	}
 	return "badcase", nil
 }
 
 func c01Gen_(g *Gen) {
+	c01GenStopCases(g) // kind 3: graceful stop with open connections (c01_stop.go)
 	n := g.Pick(30, 400)
 	for i := 0; i < n; i++ {
 		sc := c01GenScenario(g.R, g.Thorough(), "")
